@@ -628,9 +628,15 @@ def session_fresh(ctx, L, rule="R-SESSION-FRESH"):
     seen = {}
     for r in runs(ctx, f):
         for i, e in r.effects():
-            if not (e.kind == "store" and e.value[0] == "dict" and root_field(e.target) == "_rcv_buffer"):
+            if not (e.kind == "store" and root_field(e.target) == "_rcv_buffer"):
                 continue
-            d = dict(e.value[1])
+            val = e.value
+            if val[0] == "call" and val[1] == ("glob", "dict") and len(val[2]) == 1 and val[3]:
+                # dict(template, key=value, ...) is {**template, 'key': value, ...}
+                val = ("dict", ((("c", "**"), val[2][0]),) + tuple((("c", k), v) for k, v in val[3]))
+            if val[0] != "dict" or not any(k == ("c", "message_size") or k == ("c", "**") for k, _ in val[1]):
+                continue
+            d = dict(val[1])
             ctl = [g for g, p in lits(r.guards()) if p and g[0] == "cmp" and g[1] == "==" and contains(g, ("sub", ("p", "data"), ("c", 0)))]
             what = {v: k for k, v in L.ctl.items()}.get(next((x[1] for g in ctl for x in (g[2], g[3]) if is_const(x)), None), "?")
             inst = "%s %s arm: the new receive session gets its own empty data buffer" % (L.tag, what)
